@@ -19,7 +19,7 @@ class C12(core.Check):
                'subscript expression evaluation (values.to_int) and number formats are other properties; '
                'free memory (strings.current - var_current) is an input of every operation']
     RULE = ('shape cases: every subscript tuple of every array with <= 3 dimensions and bounds <= 4 (quick: '
-            'bounds <= 3, rank 3 up to bound 2) under OPTION BASE unset/0/1 is written with a unique value, read '
+            'explicit base 0 thinned out for rank 3) under OPTION BASE unset/0/1 is written with a unique value, read '
             'back, probed outside the bounds and with the wrong rank, and read back again; big cases: 1-4 '
             'dimensions with bounds <= 30, corner and off-by-one tuples; hist cases: random DIM/ERASE/OPTION '
             'BASE/CLEAR/assign/read histories with a malformed stream, executed as BASIC statements in a real '
@@ -180,13 +180,13 @@ class C12(core.Check):
         rng = self.rng
         out = []
         hist = {'shape': 0, 'big': 0, 'hist': 0, 'tuples_exhaustive': 0}
-        maxb = 4 if self.tier == 'thorough' else 3
+        maxb = 4
         types = ['%', '!', '#', '$']
         k = 0
         for base in (None, 0, 1):
             lo = base or 0
             for rank in (1, 2, 3):
-                top = maxb if (rank < 3 or self.tier == 'thorough') else 2
+                top = maxb
                 for dims in itertools.product(range(0, top + 1), repeat=rank):
                     if base == 1 and any(d < 1 for d in dims) and rng.random() < 0.8:
                         continue
